@@ -43,7 +43,8 @@ nodes == <<[url |-> row.start, status |-> row.s1, loc |-> Abs(row.t1)]>>
 
 Emit == done => PrintT(<<"REPLAY", ToJson([kind |-> "loop", seed |-> 11,
    req |-> [method |-> "POST", url |-> row.start, body |-> [kind |-> row.body, len |-> row.len, writes |-> <<3, 0, 2000, 1>>, chunked |-> TRUE],
-            headers |-> <<<<"x-caller", "kept-value">>, <<"authorization", "Bearer SECRET-TOKEN-1">>>>, params |-> <<>>],
+            headers |-> <<<<"x-caller", "kept-value">>, <<"authorization", "Bearer SECRET-TOKEN-1">>,
+                        <<"proxy-authorization", "Basic Y2FsbGVyOmhkcg==">>, <<"cookie", "a=1">>, <<"cookie", "b=2", TRUE>>>>, params |-> <<>>],
    settings |-> [follow |-> TRUE, maxRedir |-> 5, proxy |-> row.px],
    nodes |-> nodes, connect |-> [status |-> 200, valid |-> TRUE],
    secrets |-> <<"SECRET-TOKEN-1", "kept-value">>])>>)
